@@ -579,6 +579,9 @@ package silence
 //@   ensures [results-non-nil] forall i int :: 0 <= i && i < len(result0) ==> result0[i] != nil
 //@   ensures [results-are-copies] result0 == nil || fresh(result0)
 //@   ensures [error-propagates] called("query$2") && ret1("query$2") != nil ==> result2 == ret1("query$2") && result0 == nil
+//@   ensures [only-a-filter-error-fails-the-scan] result2 != nil ==> called("query$2") && ret1("query$2") != nil
+//@   loop 1 earlyexit called("query$2") && ret1("query$2") != nil
+//@   loop 2 earlyexit called("query$2") && ret1("query$2") != nil
 //@   at call findVersionGreaterThan assert [since-version] arg0 == s.vi && arg1 == deref(q.since)
 //@   loop 1 invariant (forall i int :: 0 <= i && i < len(res) ==> res[i] != nil)
 //@   loop 2 invariant (forall i int :: 0 <= i && i < len(res) ==> res[i] != nil)
